@@ -18,7 +18,8 @@ def run_property(prop: str, tier: str, prog: Program) -> Check:
     mod = importlib.import_module(f'pjx.props.{prop.lower()}')
     ck = Check(prop, tier, int(os.environ.get('VERIF_SEED', '0') or 0))
     from .normal import normalised
-    mod.run(ck, normalised(prog))
+    from .props import run_check
+    run_check(mod, ck, normalised(prog))
     return ck
 
 
